@@ -1371,6 +1371,7 @@ def _subst(text, params):
 
 def _instantiate(tpl, params, cid, seed):
     kw = dict(tpl["kw"])
+    kw.pop("tier", None)
     s = lambda t: _subst(t, params)  # noqa: E731
     follow = [(n, s(e)) for n, e in kw.pop("follow", ())]
     alias = [(t, s(e)) for t, e in kw.pop("alias", ())]
@@ -1391,13 +1392,24 @@ def _instantiate(tpl, params, cid, seed):
     )
 
 
-def make_cases(rng, quick=True):
-    """Deterministic list of cases given (rng state, quick)."""
+def make_cases(rng, quick=True, only_funcs=None, targeted=False):
+    """Deterministic list of cases given (rng state, quick).
+
+    Templates marked ``tier="targeted"`` (systematic variations of one entry point) are only instantiated
+    when ``targeted`` is true; ``only_funcs`` restricts to templates whose entry point (or a follow-up entry
+    point) is in the given set."""
     cases = []
     counts = {}
     for tpl in _TEMPLATES:
+        tier = tpl["kw"].get("tier", "regular")
+        if tier == "targeted" and not targeted:
+            continue
+        if only_funcs is not None:
+            names = {tpl["func"]} | {n for n, _ in tpl["kw"].get("follow", ())} | set(tpl["kw"].get("also", ()))
+            if not (names & set(only_funcs)):
+                continue
         base = tpl["func"] + (f"[{tpl['tag']}]" if tpl["tag"] else "")
-        nvar = 1 if (quick or tpl["kw"].get("needs_scratch")) else 3
+        nvar = 1 if (quick or tpl["kw"].get("needs_scratch") or tier == "targeted") else 3
         for k in range(nvar):
             params = dict(tpl["P"])
             seed = rng.randrange(1, 2**31 - 1)
@@ -2663,6 +2675,187 @@ def main(argv=None):
     print("slowest cases:", ", ".join(f"{cid} {dt:.1f}s" for dt, cid in sorted(timing, reverse=True)[:5]))
     print(f"TOTAL {len(cases)} cases x {len(MODES)} modes in {total:.1f}s; {len(all_obs)} observations")
     return 0
+
+
+# ==================================================================================================
+# systematic variations (added after seeded-change gaps): a small covering subset runs in the regular
+# suite, the full families (tier="targeted") are used by the targeted search of props/c20.py when the
+# static side reports a new rejected function / write site.
+# ==================================================================================================
+_NC = (
+    "def nc(a):\n"
+    "    a = np.asarray(a)\n"
+    "    b = np.zeros(a.shape[:-1] + (2 * a.shape[-1],), dtype=a.dtype)\n"
+    "    b[..., ::2] = a\n"
+    "    return b[..., ::2]\n"
+)
+
+
+def _ode_family():
+    fx = "def fx(x):\n    return np.cos(x) + 0.5 * x\n"
+    # lower-order coefficient patterns, per order K: list of K numbers, then the leading coefficient
+    pats = {
+        "generic": lambda K: [[-1.0], [-1.0, 0.3], [0.5, -1.0, 0.3]][K - 1],
+        "zero_lower": lambda K: [0.0] * K,
+        "some_zero": lambda K: [[0.0], [0.0, 0.4], [0.0, -1.0, 0.0]][K - 1],
+    }
+    leads = {"lead1": 1.0, "lead2": 2.0, "leadneg": -0.5}
+    bds = {1: "[(0, 0, 0.5)]", 2: "[(0, 0, 0.0), (1, 0, 1.0)]", 3: "[(0, 0, 0.0), (1, 0, 1.0), (0, 1, 0.5)]"}
+    y0s = {1: "[0.5]", 2: "[0.0, 1.0]", 3: "[0.0, 1.0, 0.5]"}
+    regular = {("zero_lower", "lead2"), ("some_zero", "lead2"), ("zero_lower", "lead1"), ("generic", "leadneg")}
+    for K in (1, 2, 3):
+        for pn, pf in pats.items():
+            for ln, lead in leads.items():
+                vals = pf(K) + [lead]
+                for form in ("numbers", "ndarray", "callables", "mixed"):
+                    if form == "numbers":
+                        cdef, bind, cbs = f"coeffs = {vals!r}\n", "", {}
+                    elif form == "ndarray":
+                        cdef, bind, cbs = f"coeffs = np.array({vals!r})\n", "", {}
+                    else:
+                        names = []
+                        cdef = ""
+                        for i, v in enumerate(vals):
+                            if form == "mixed" and i % 2 == 1:
+                                names.append(repr(v))
+                                continue
+                            cdef += f"def c{i}(x):\n    return {v!r} + 0.0 * x\n"
+                            names.append(f"c{i}")
+                        bind = "coeffs = [" + ", ".join(names) + "]\n"
+                        cbs = {n: v for n, v in zip(names, vals) if n.startswith("c")}
+                    callbacks = ["fx"] + sorted(cbs)
+                    cbarg = {"fx": ("lambda x: x", "lambda x: x + 0.0")}
+                    cbcache = {"fx": 1.5}
+                    for n, v in cbs.items():
+                        cbcache[n] = v
+                    reg = (pn, ln) in regular and (K == 2 or form == "numbers")
+                    for solver in ("bvp", "ivp"):
+                        for tfn, tfsrc in (("notf", None), ("identity", "IdentityRTransform()"), ("invbecke", "InverseRTransform(BeckeRTransform(0.0, 1.0))")):
+                            if tfsrc is not None and not (form in ("numbers", "callables") and K <= 3):
+                                continue
+                            tier = "regular" if (reg and tfn == "notf") or (pn == "zero_lower" and ln == "lead2" and form == "numbers" and K == 2 and tfn == "identity") else "targeted"
+                            tag = f"var_K{K}_{pn}_{ln}_{form}_{tfn}"
+                            tfdef = f"tf = {tfsrc}\n" if tfsrc else ""
+                            tfarg = ", transform=tf" if tfsrc else ""
+                            args = ["coeffs", "tp"] + (["tf"] if tfsrc else [])
+                            if solver == "bvp":
+                                lo, hi = ("0.5", "3.0") if tfn == "invbecke" else ("0.0", "1.0")
+                                setup = (_RS + fx + f"x = np.linspace({lo}, {hi}, @N@)\ntp = np.linspace({lo}, {hi}, 5)[1:-1]\n" + cdef
+                                         + f"bd = {bds[K]}\nguess = np.zeros(({K}, @N@))\n" + tfdef)
+                                _T("ode.solve_ode_bvp", tag, setup, f"solve_ode_bvp(x, fx, coeffs, bd{tfarg}, tol=1e-3, max_nodes=3000, initial_guess_y=guess)",
+                                   ["x", "bd", "guess"] + args, dict(N=10), dict(N=[8, 10, 14]), bind=bind,
+                                   follow=[(_SOLT if tfsrc else _SOL, "result(tp)")], callbacks=callbacks, cbarg=cbarg, cbcache=cbcache, tier=tier)
+                            else:
+                                lo, hi = ("0.5", "2.0") if tfn == "invbecke" else ("0.0", "1.5")
+                                setup = (_RS + fx + f"span = ({lo}, {hi})\ntp = np.linspace({lo}, {hi}, 5)[1:-1]\n" + cdef + f"y0 = {y0s[K]}\n" + tfdef)
+                                methods = ["DOP853"] if tier == "regular" or tfsrc else ["DOP853", "RK45", "Radau", "BDF", "LSODA"]
+                                for meth in methods:
+                                    _T("ode.solve_ode_ivp", tag + ("" if meth == "DOP853" else "_" + meth), setup,
+                                       f"solve_ode_ivp(span, fx, coeffs, y0{tfarg}, method='{meth}', rtol=1e-5, atol=1e-7)",
+                                       ["span", "y0"] + args, dict(N=10), dict(N=[8, 10, 14]), bind=bind,
+                                       follow=[(_SOLT if tfsrc else _SOLI, "result(tp)")], callbacks=callbacks, cbarg=cbarg, cbcache=cbcache, tier=tier)
+
+
+_ode_family()
+
+
+def _poisson_family():
+    # user option dicts with every subset of the defaulted keys, AtomGrid and MolGrid
+    bvp_keys = {"tol": "1e-3", "max_nodes": "3000", "no_derivatives": "True"}
+    ivp_keys = {"method": "'RK45'", "rtol": "1e-5", "atol": "1e-7"}
+    import itertools as _it
+
+    for r in range(0, 4):
+        for sub in _it.combinations(sorted(bvp_keys), r):
+            d = "{" + ", ".join(f"'{k}': {bvp_keys[k]}" for k in sub) + "}"
+            tier = "regular" if r in (0, 2) and sub in ((), ("max_nodes", "tol")) else "targeted"
+            _T("poisson.solve_poisson_bvp", "var_opts_" + ("_".join(sub) or "empty"), _PAGS + f"ode_params = {d}\n",
+               "solve_poisson_bvp(ag, fv, tf, include_origin=False, remove_large_pts=10.0, ode_params=ode_params)",
+               ["ag", "fv", "tf", "ode_params", "tp"], _PP, _VPP, follow=[(_PBV, "result(tp)")], tier=tier)
+        for sub in _it.combinations(sorted(ivp_keys), r):
+            d = "{" + ", ".join(f"'{k}': {ivp_keys[k]}" for k in sub) + "}"
+            tier = "regular" if sub == () else "targeted"
+            _T("poisson.solve_poisson_ivp", "var_opts_" + ("_".join(sub) or "empty"), _PAGS + f"interval = [50.0, 1e-2]\node_params = {d}\n",
+               "solve_poisson_ivp(ag, fv, tf, r_interval=interval, ode_params=ode_params)",
+               ["ag", "fv", "tf", "interval", "ode_params", "tp"], _PP, _VPP, follow=[(_PBV, "result(tp)")], tier=tier)
+
+
+_poisson_family()
+
+
+def _constructor_family():
+    kinds = {
+        "list": "{v}",
+        "tuple": "tuple({v})",
+        "int64": "np.array({v}, dtype=np.int64)",
+        "int32": "np.array({v}, dtype=np.int32)",
+        "float": "np.array({v}, dtype=float)",
+        "nc_int64": "nc(np.array({v}, dtype=np.int64))",
+        "intp_F": "np.asfortranarray(np.array({v}, dtype=np.intp))",
+    }
+    # degrees: tabulated, untabulated (even degrees, 33 / 37 / 39 are missing for Lebedev), length one
+    degsets = {"tab": "([3, 5, 7, 9, 11, 13] * 4)[:@N@]", "untab": "([4, 33, 37, 39, 6, 12, 2, 8] * 3)[:@N@]", "len1": "[5]", "len1_untab": "[6]"}
+    sizesets = {"tab": "([6, 14, 26, 38] * 6)[:@N@]", "untab": "([7, 15, 27, 39, 20, 5] * 4)[:@N@]", "len1": "[14]", "len1_untab": "[15]"}
+    methods = ("lebedev", "spherical", "maxdet", "ahrens_beylkin")
+    for kn, ksrc in kinds.items():
+        for dn, dsrc in degsets.items():
+            for meth in methods:
+                reg = (dn == "untab" and meth == "lebedev") or (kn == "int64" and dn in ("untab", "len1_untab")) or (kn == "int32" and dn == "tab" and meth == "spherical")
+                _T("atomgrid.AtomGrid.__init__", f"var_degrees_{kn}_{dn}_{meth}", _RS + _NC + _RG + "degs = " + ksrc.format(v=dsrc) + "\n",
+                   f"AtomGrid(rg, degs, method='{meth}')", ["rg", "degs"], dict(N=6), dict(N=[4, 6, 8]), tier="regular" if reg else "targeted")
+        for sn, ssrc in sizesets.items():
+            for meth in methods:
+                reg = (sn == "untab" and meth == "lebedev" and kn in ("list", "int64", "int32", "nc_int64")) or (kn == "int64" and sn == "len1_untab")
+                _T("atomgrid.AtomGrid.__init__", f"var_sizes_{kn}_{sn}_{meth}", _RS + _NC + _RG + "sizes = " + ksrc.format(v=ssrc) + "\n",
+                   f"AtomGrid(rg, None, sizes=sizes, method='{meth}')", ["rg", "sizes"], dict(N=6), dict(N=[4, 6, 8]), tier="regular" if reg else "targeted")
+    # from_pruned: sector lists / arrays
+    for kn, ksrc in kinds.items():
+        for which in ("d", "s"):
+            sec = "[3, 7, 4, 33]" if which == "d" else "[6, 15, 27, 38]"
+            arg = "d_sectors=sec" if which == "d" else "s_sectors=sec"
+            _T("atomgrid.AtomGrid.from_pruned", f"var_{which}sectors_{kn}", _RS + _NC + _RG + "rsec = " + ksrc.format(v="[0.3, 0.8, 1.5]").replace("np.int64", "float").replace("np.int32", "np.float32").replace("np.intp", "float")
+               + "\nsec = " + ksrc.format(v=sec) + "\ncenter = rs.uniform(-1, 1, 3)\n",
+               f"AtomGrid.from_pruned(rg, 1.2, rsec, {arg}, center=center)", ["rg", "rsec", "sec", "center"], dict(N=8), dict(N=[6, 8, 12]),
+               tier="regular" if kn in ("int64", "nc_int64", "list") else "targeted")
+    # MolGrid constructors: atnums dtype / container, atcoords layout
+    coords = {"c": "np.array([[0.0, 0.0, -0.7], [0.0, 0.0, 0.7]])", "F": "np.asfortranarray(np.array([[0.0, 0.0, -0.7], [0.0, 0.0, 0.7]]))",
+              "nc": "nc(np.array([[0.0, 0.0, -0.7], [0.0, 0.0, 0.7]]))", "one": "np.array([[0.1, 0.2, 0.3]])"}
+    for kn, ksrc in kinds.items():
+        if kn == "tuple":
+            continue
+        for cn, csrc in coords.items():
+            nums = "[1]" if cn == "one" else "[1, 8]"
+            base = _RS + _NC + _RG + "atnums = " + ksrc.format(v=nums) + "\natcoords = " + csrc + "\n"
+            reg = (kn in ("int64", "int32") and cn in ("F", "nc")) or (kn == "list" and cn == "one")
+            tier = "regular" if reg else "targeted"
+            _T("molgrid.MolGrid.from_size", f"var_{kn}_{cn}", base, "MolGrid.from_size(np.asarray(atnums), atcoords, 6, rgrid=rg, rotate=0)", ["atnums", "atcoords", "rg"], dict(N=6), dict(N=[4, 6, 8]), tier=tier)
+            _T("molgrid.MolGrid.from_preset", f"var_{kn}_{cn}", base, "MolGrid.from_preset(np.asarray(atnums), atcoords, 'coarse', rgrid=rg, rotate=0, store=True)", ["atnums", "atcoords", "rg"], dict(N=6), dict(N=[4, 6, 8]), tier=tier)
+            _T("molgrid.MolGrid.from_pruned", f"var_{kn}_{cn}", base + "rsec = [[0.5, 1.0]] * len(atcoords)\ndsec = [[3, 5, 7]] * len(atcoords)\n",
+               "MolGrid.from_pruned(np.asarray(atnums), atcoords, 1.0, rsec, dsec, rgrid=rg, rotate=0)", ["atnums", "atcoords", "rsec", "dsec", "rg"], dict(N=6), dict(N=[4, 6, 8]), tier=tier)
+            _T("becke.BeckeWeights.__call__", f"var_{kn}_{cn}", base + "pts = rs.uniform(-2, 2, (@N@ * 3, 3))\nidx = np.array([0, @N@, @N@ * 3])[: len(atcoords) + 1]\nidx[-1] = @N@ * 3\n",
+               "BeckeWeights(order=2)(pts, atcoords, atnums, idx)", ["pts", "atcoords", "atnums", "idx"], dict(N=6), dict(N=[4, 6, 8]), tier=tier)
+    # grids from non-contiguous / Fortran-ordered / read-only-friendly arrays
+    for ln, lsrc in (("nc", "nc(pts)"), ("F", "np.asfortranarray(pts)"), ("one", "pts[:1]")):
+        wsrc = "wts[:1]" if ln == "one" else ("nc(wts)" if ln == "nc" else "wts")
+        g3 = _RS + _NC + "pts = rs.uniform(-1, 1, (@N@, 3)); wts = rs.uniform(0.1, 1, @N@)\n" + f"p = {lsrc}\nw = {wsrc}\n"
+        _T("basegrid.Grid.__init__", f"var_{ln}", g3, "Grid(p, w)", ["p", "w"], dict(N=7), dict(N=[5, 7, 11]), follow=[("basegrid.Grid.integrate", "result.integrate(np.ones(result.size))")])
+        _T("basegrid.Grid.get_localgrid", f"var_{ln}", g3 + "g = Grid(p, w)\nc = nc(np.array([0.1, 0.0, -0.1]))\n", "g.get_localgrid(c, 1.5)", ["g", "c"], dict(N=7), dict(N=[5, 7, 11]))
+        _T("basegrid.Grid.moments", f"var_{ln}", g3 + "g = Grid(p, w)\ncent = nc(np.array([[0.1, 0.0, -0.1], [0.0, 0.2, 0.0]]))\nfv = nc(rs.normal(size=len(w)))\n",
+           "g.moments(2, cent, fv, 'cartesian')", ["g", "cent", "fv"], dict(N=7), dict(N=[5, 7, 11]))
+        _T("periodicgrid.PeriodicGrid.__init__", f"var_{ln}", g3 + "rv = nc(np.diag([2.0, 2.5, 3.0]))\n", "PeriodicGrid(p, w, rv, wrap=True)", ["p", "w", "rv"], dict(N=7), dict(N=[5, 7, 11]),
+           follow=[("periodicgrid.PeriodicGrid.get_localgrid", "result.get_localgrid(np.array([0.2, 0.1, 0.0]), 1.1)")])
+    for kn, ksrc in kinds.items():
+        if kn in ("float", "tuple", "list"):
+            continue
+        _T("cubic.UniformGrid.__init__", f"var_shape_{kn}", _RS + _NC + "origin = nc(np.array([0.0, 0.1, -0.2]))\naxes = np.asfortranarray(np.diag([0.5, 0.4, 0.3]) + 0.01)\nshape = " + ksrc.format(v="[3, 4, 2]") + "\n",
+           "UniformGrid(origin, axes, shape)", ["origin", "axes", "shape"], None, None)
+    _T("cubic.Tensor1DGrids.__init__", "var_len2", _RS + "a = OneDGrid(np.array([0.0, 1.0]), np.array([0.5, 0.5]))\nb = GaussLegendre(3)\n", "Tensor1DGrids(a, b)", ["a", "b"], None, None)
+    _T("basegrid.OneDGrid.__init__", "var_nc_len1", _RS + _NC + "p = nc(np.array([0.3]))\nw = nc(np.array([1.0]))\n", "OneDGrid(p, w, (0, 1))", ["p", "w"], None, None)
+    _T("rtransform.BaseTransform.transform_1d_grid", "var_nc", _RS + _NC + "og = OneDGrid(nc(np.linspace(-0.9, 0.9, @N@)), nc(np.full(@N@, 2.0 / @N@)), (-1, 1))\ntf = BeckeRTransform(0.1, 1.2)\n",
+       "tf.transform_1d_grid(og)", ["tf", "og"], dict(N=7), dict(N=[5, 7, 11]))
+
+
+_constructor_family()
 
 
 if __name__ == "__main__":
